@@ -13,8 +13,9 @@ package main
 import (
 	"bytes"
 	"context"
-	"errors"
 	"fmt"
+	"os"
+	"runtime"
 	"sort"
 	"time"
 
@@ -66,15 +67,24 @@ func (g *c09Gate) PutChangeSet(p, s map[string][]byte) error {
 	return err
 }
 
-var errC09Stuck = errors.New("schedule step did not complete within 30 s (deadlock in the store under test?)")
+const c09StepTimeout = 120 * time.Second
 
-// c09Wait receives from ch, giving up after 30 s so that a deadlock shows up as a failed run, not as a hang
-func c09Wait(ch chan struct{}) error {
+// c09Stuck is returned when a forced-schedule step does not reach its waiting point in time: an infrastructure failure
+// (never a violation). It dumps all goroutine stacks to stderr so that the log says where things stand.
+func c09Stuck(where string) error {
+	buf := make([]byte, 1<<20)
+	n := runtime.Stack(buf, true)
+	fmt.Fprintf(os.Stderr, "nghx c09: step %q did not complete within %s; goroutines:\n%s\n", where, c09StepTimeout, buf[:n])
+	return fmt.Errorf("schedule step %q did not complete within %s (deadlock in the store under test, or a stalled machine)", where, c09StepTimeout)
+}
+
+// c09Wait receives from ch, giving up after c09StepTimeout so that a deadlock shows up as a failed run, not as a hang
+func c09Wait(ch chan struct{}, where string) error {
 	select {
 	case <-ch:
 		return nil
-	case <-time.After(30 * time.Second):
-		return errC09Stuck
+	case <-time.After(c09StepTimeout):
+		return c09Stuck(where)
 	}
 }
 
@@ -220,8 +230,8 @@ func c09RunSched(co *caseOut, in c09SInput, dir string, seq int) error {
 			g.putArmed = true
 			go func() { _, err := L.Persist(); persistDone <- err }()
 			select {
-			case <-time.After(30 * time.Second):
-				return errC09Stuck
+			case <-time.After(c09StepTimeout):
+				return c09Stuck("c09sched:select1")
 			case <-g.putArrive:
 				pstate = swapped
 				sh.temp, sh.cm, sh.wrote = sh.cm, map[string][]byte{}, false
@@ -240,7 +250,7 @@ func c09RunSched(co *caseOut, in c09SInput, dir string, seq int) error {
 				break
 			}
 			g.putGo <- struct{}{}
-			if err := c09Wait(g.putWritten); err != nil {
+			if err := c09Wait(g.putWritten, "c09sched:g.putWritten"); err != nil {
 				return err
 			}
 			pstate = written
@@ -270,7 +280,7 @@ func c09RunSched(co *caseOut, in c09SInput, dir string, seq int) error {
 			ctx, cancel = context.WithCancel(context.Background())
 			g.seekArmed = true
 			ch = L.SeekAsync(ctx, rng, false)
-			if err := c09Wait(g.seekArrive); err != nil { // (arrived: the goroutine has taken nothing from the lower store yet)
+			if err := c09Wait(g.seekArrive, "c09sched:g.seekArrive"); err != nil { // (arrived: the goroutine has taken nothing from the lower store yet)
 				return err
 			}
 			rstate = 1
